@@ -7,7 +7,8 @@ that is on the class but not in TABLE/EXCLUDED is reported as ``uncovered:``) is
 evaluated on every configuration in scope, for every input form (phased matrix,
 unphased projection, raw dosage ndarray), and compared with the per-taxon definition
 evaluated in exact arithmetic (mc/ref/linmod.py).  Metamorphic layers on top: all
-taxon permutations, all 2-way marker partitions.  Second part: every small training
+taxon permutations, all 2-way marker partitions, and short histories that re-assign the
+coefficients of one model object (setters / in-place) and demand the behaviour of a fresh model.  Second part: every small training
 set through rrBLUPModel0.fit_numpy with the four clauses of the property.
 """
 from __future__ import annotations
@@ -26,7 +27,9 @@ TECHNIQUE = ("complete small-scope input enumeration of (model, genotype) config
              "exhaustive enumeration of small rrBLUP training sets")
 RULE = ("one evaluation = one (model class, effects, intercept rows, ploidy, genotype matrix) configuration on which "
         "every covered public method is applied in every applicable input form (phased / unphased / ndarray), plus "
-        "taxon permutations (all n! for n<=3; thorough: all 24 for n=4) and all 2-way marker splits; or one training "
+        "taxon permutations (all n! for n<=3; thorough: all 24 for n=4), all 2-way marker splits and (every second "
+        "configuration) a 2-step history that re-assigns the coefficients of the same model object through the "
+        "public setters / in place and re-checks the value methods; or one training "
         "set (Z,y) through rrBLUPModel0.fit_numpy. Genotypes: ALL phased matrices {0,1}^(2 x n x m) for "
         "(n,m) in {(1,1),(1,2),(2,1),(2,2),(3,1)} in both tiers and for (3,2) in thorough (quick: every 3rd), "
         "pairwise-covering strided sets for (3,3),(4,2) (asserted), all haploid / tetraploid matrices of the listed "
@@ -330,7 +333,7 @@ def splits_for(m):
 class Cfg:
     """Everything about one (model, genotype) configuration: library objects + exact reference values."""
 
-    def __init__(self, case):
+    def __init__(self, case, reuse=None):
         self.case = case
         c = self.code = case["cls"]
         self.kind, self.P, self.n, self.m = case["kind"], case["P"], case["n"], case["m"]
@@ -339,7 +342,8 @@ class Cfg:
         al = EFF[s]
         self.Ua = [[al[i] for i in row] for row in case["ua"]]
         self.Ud = None if case.get("ud") is None else [[al[i] for i in row] for row in case["ud"]]
-        self.beta = [[BETA[s][r][k] for k in range(self.t)] for r in range(self.q)]
+        sb = case.get("bseed", self.seed) % 3          # history layer: intercept re-assigned from another alphabet
+        self.beta = [[BETA[sb][r][k] for k in range(self.t)] for r in range(self.q)]
         self.Umisc = [[MISC[s][k] for k in range(self.t)]] if self.misc else []
         self.ph, self.A = geno_decode(self.kind, self.P, self.n, self.m, case["g"])
         self.H = R.het(self.A, self.P)
@@ -349,7 +353,11 @@ class Cfg:
         self.xvar = case.get("xvar", 0)
         self.fcache, self.fkeep, self.obs = {}, [], []
         self._ref()
-        self.build()
+        if reuse is None:
+            self.build()
+        else:               # same library objects as an earlier configuration (history layer)
+            self.mod, self.forms, self.objforms = reuse.mod, reuse.forms, reuse.objforms
+            self.Zf, self.Hf, self.pf, self.snap0 = reuse.Zf, reuse.Hf, reuse.pf, None
 
     # -- exact reference values ------------------------------------------------
     def _ref(self):
@@ -858,6 +866,10 @@ def run_case(ctx, case, tier=None):
         ok_all = False
         _attribute_mutation(ctx, case, cov)
 
+    # ---- history layer: coefficients re-assigned on the same model object ------
+    if case.get("hist", False):
+        ok_all = run_history(ctx, cfg, case, cov, mk_call) and ok_all
+
     # ---- bookkeeping ---------------------------------------------------------
     if ok_all:
         ctx.traces += 1
@@ -897,6 +909,50 @@ def run_case(ctx, case, tier=None):
         ctx.sample(dict(case, dosage=cfg.A, gebv=[[str(v) for v in r] for r in cfg.bv],
                         gegv=[[str(v) for v in r] for r in cfg.gv], var_A=[str(v) for v in cfg.varA],
                         facount=cfg.astats["facount"]))
+
+
+HIST_METHODS = ("gebv", "gegv_numpy", "gegv", "predict_numpy", "var_G", "var_A", "bulmer", "facount")
+
+
+def run_history(ctx, cfg, case, cov, mk_call):
+    """Histories of length 1-2 on ONE model object: coefficients re-assigned through the public setters (and edited in
+    place); afterwards the model must behave exactly like a freshly built model with those coefficients."""
+    code = cfg.code
+    ufield = "u" if code == "L" else "u_a"
+    shift = lambda M, d: [[(i + d) % 4 for i in row] for row in M]
+    c1 = dict(case, ua=shift(case["ua"], 1))
+    steps = [("after-%s-setter" % ufield, c1, lambda mod, c: setattr(mod, ufield, fl(c.Ua).reshape(c.m, c.t)))]
+    pick = (case["g"] + sum(sum(r) for r in case["ua"])) % 3
+    if pick == 0 and code == "D":
+        c2 = dict(c1, ud=shift(case["ud"], 2))
+        steps.append(("after-u_d-setter", c2, lambda mod, c: setattr(mod, "u_d", fl(c.Ud).reshape(c.m, c.t))))
+    elif pick <= 1:
+        c2 = dict(c1, bseed=case["seed"] + 1)
+        steps.append(("after-beta-setter", c2, lambda mod, c: setattr(mod, "beta", fl(c.beta).reshape(c.q, c.t))))
+    else:
+        c2 = dict(c1, ua=shift(case["ua"], 3))
+
+        def edit(mod, c):
+            getattr(mod, ufield)[...] = fl(c.Ua).reshape(c.m, c.t)
+        steps.append(("after-inplace-edit", c2, edit))
+    prev, ok_all = cfg, True
+    for label, ck, op in steps:
+        cur = Cfg(ck, reuse=prev)
+        cur.skipped, cur.rsq_seen = 0, set()
+        try:
+            op(cur.mod, cur)
+        except Exception as e:
+            ctx.violation(f"{CLSNAME[code]}:{label}:exception:{type(e).__name__}", f"{label}: {e}", case)
+            return False
+        for name in HIST_METHODS:
+            if name not in cov or name not in TABLE:
+                continue
+            sig = f"{owner(code, name)}.{name}:{label}"
+            ok = ctx.guard(lambda: TABLE[name](cur, sig, mk_call(name)), case=case, sig_prefix=sig + ":")
+            ok_all = ok_all and ok
+        ctx.count("history-steps:" + label)
+        prev = cur
+    return ok_all
 
 
 def _attribute_mutation(ctx, case, cov):
@@ -1098,7 +1154,8 @@ def run_shard(spec, ctx):
                 case = dict(part="model", cls=code, kind=kind, P=P, n=n, m=m, g=g, t=t, q=q, misc=misc,
                             ua=[list(r) for r in ua], ud=None if ud is None else [list(r) for r in ud],
                             xvar=(g + ei) % 2, seed=ctx.seed,
-                            perm=bool(n <= 2 or (ctx.tier == "thorough" and n <= 3) or (g + ei) % 3 == 0))
+                            perm=bool(n <= 2 or (ctx.tier == "thorough" and n <= 3) or (g + ei) % 3 == 0),
+                            hist=bool((g + ei) % 2 == 0))
                 run_case(ctx, case)
         if gstride > 1:
             ctx.flag(f"covering-set:{kind}{P}x{n}x{m}/stride{gstride}")
@@ -1138,6 +1195,8 @@ def finalize(ctx, tier, seed):
               "fit-underdetermined", "fit-n2-p2", "fit-n2-p3", "fit-n3-p3", "fit-n3-p1", "fit-n3-p2", "fit-n4-p1", "fit-n4-p2", "fit-n5-p1", "fit-n5-p2"):
         assert f in ctx.flags, f
     assert ctx.counters.get("perm-instances", 0) > 0 and ctx.counters.get("partition-instances", 0) > 0
+    for lab in ("after-u_a-setter", "after-u-setter", "after-u_d-setter", "after-beta-setter", "after-inplace-edit"):
+        assert ctx.counters.get("history-steps:" + lab, 0) > 0, lab
     assert ctx.counters.get("fit:normal-equation-clause-checked", 0) > 0
     assert ctx.counters.get("fit:normal-equation-clause-not-applicable", 0) > 0
     assert ctx.counters.get("fits:fit", 0) > 0
